@@ -2,6 +2,6 @@
 #[tarpc::service]
 pub trait Rej54 {
     async fn aB(ctx: tarpc::context::Context) -> i32;
-    async fn _a_b() -> String;
+    async fn Ab() -> String;
 }
 fn main() {}
